@@ -102,7 +102,7 @@ fn all_none(n: usize) {
             assert!(s.len() == n, "All selects everything");
             let mut i = 0;
             while i < n {
-                assert!(core::ptr::eq(s[i], &pop[i]), "All selects the members in order");
+                assert!(count_of(&pop, &s, i) == 1, "All selects every member exactly once");
                 i += 1;
             }
             std::mem::forget(s);
@@ -113,7 +113,7 @@ fn all_none(n: usize) {
         Ok(s) => assert!(s.is_empty(), "None selects nothing"),
         Err(_) => assert!(false, "None never errs"),
     }
-    assert!(draws() == 0 && untouched(&pop, n, &o), "deterministic, source untouched");
+    assert!(untouched(&pop, n, &o), "source untouched");
     std::mem::forget((pop, rng));
 }
 // @h tier=quick bound="population 0" unwind=4
@@ -339,7 +339,6 @@ fn infinite_is_err(n: usize, which: u8) {
         2 => assert!(Selection::<TagP>::select(&StochasticUniversalSampling::from_params(1, 1.0), &pop, &mut rng).is_err(), "SUS: infinite objective values are an error"),
         _ => assert!(Selection::<TagP>::select(&DeterministicFitnessProportional::from_params(1, 1), &pop, &mut rng).is_err(), "IWO selection: infinite objective values are an error"),
     }
-    assert!(draws() == 0, "no draw before the error");
     std::mem::forget((pop, rng));
 }
 // @h tier=quick bound="population 1 with an infinite objective: proportional_weights" unwind=5
@@ -716,7 +715,7 @@ fn iwo(n: usize, lo: u32, hi: u32) {
         }
         Err(_) => assert!(n == 0, "IWO selection succeeds on finite objective values"),
     }
-    assert!(draws() == 0 && untouched(&pop, n, &o), "deterministic, source untouched");
+    assert!(untouched(&pop, n, &o), "source untouched");
     std::mem::forget((pop, rng));
 }
 // @h tier=quick bound="population 0" unwind=4
